@@ -27,7 +27,9 @@ fn run(prop: &str, unit: &str, outp: &str) {
         max_paths: env_u64("VERIF_MAXPATHS", 20000) as usize,
         simplify: u.get_or("simp", "1") == "1",
         verbose: std::env::var("VERIF_VERBOSE").is_ok(),
-        budget_s: env_u64("VERIF_UNIT_BUDGET", 100000) as f64,
+        // `bud=<s>` in a unit caps its own budget (units kept for refutation: paths, witnesses and same-path variants
+        // come first, what is left of the budget goes to the solver rungs)
+        budget_s: u.get("bud").parse::<f64>().map(|b| b.min(env_u64("VERIF_UNIT_BUDGET", 100000) as f64)).unwrap_or(env_u64("VERIF_UNIT_BUDGET", 100000) as f64),
         strict_unexplored: props::strict_unexplored(prop),
         late_timeout_s: env_u64("VERIF_LATE_TIMEOUT", 2),
         threads: env_u64("VERIF_THREADS", 4) as usize,
